@@ -158,3 +158,44 @@ Definition lc_report (o : lc_op) : nat * report :=
   end.
 
 Definition lc_events (os : list lc_op) : list (nat * status) := snd (rep_run [] (map lc_report os)).
+
+(* ---- concurrently issued reports ------------------------------------------------------------------
+   Reports that overlap in real time may take effect in any order, but each one takes effect
+   ATOMICALLY (reporter.mu is held across lookup, decision, transition and delivery): the possible
+   outcomes of issuing the reports [conc] concurrently after the sequential prefix [pre] are the
+   sequential runs over the orderings of [conc].  (Harness conc validates this on the real reporter.) *)
+Fixpoint insert_all {A} (x : A) (l : list A) : list (list A) :=
+  match l with
+  | [] => [[x]]
+  | y :: r => (x :: y :: r) :: map (cons y) (insert_all x r)
+  end.
+
+Fixpoint perms {A} (l : list A) : list (list A) :=
+  match l with
+  | [] => [[]]
+  | x :: r => flat_map (insert_all x) (perms r)
+  end.
+
+Definition conc_outcomes (pre conc : list (nat * report)) : list (list (nat * status)) :=
+  map (fun p => snd (rep_run [] (pre ++ p))) (perms conc).
+
+(* A NON-atomic automatic OK, for contrast (this is NOT what the code does; it is what a
+   check-then-act implementation of ReportOKIfStarting would do): the status is read in one
+   critical section ([NaCheck]) and OK is reported in a second one ([NaAct]) if the status read
+   was Starting.  [na_run] executes a schedule of such half-steps and ordinary atomic reports;
+   [seen] remembers, per instance, what the pending check has read. *)
+Inductive na_op := NaAtomic (i : nat) (r : report) | NaCheck (i : nat) | NaAct (i : nat).
+
+Fixpoint na_run (m : rstate) (seen : rstate) (os : list na_op) : list (nat * status) :=
+  match os with
+  | [] => []
+  | NaAtomic i r :: os' =>
+      let '(m', e) := rep_step m (i, r) in
+      match e with Some x => x :: na_run m' seen os' | None => na_run m' seen os' end
+  | NaCheck i :: os' => na_run m (rset i (rget i m) seen) os'
+  | NaAct i :: os' =>
+      if status_eqb (rget i seen) Starting
+      then let '(m', e) := rep_step m (i, RStatus OK) in
+           match e with Some x => x :: na_run m' seen os' | None => na_run m' seen os' end
+      else na_run m seen os'
+  end.
